@@ -1,3 +1,4 @@
+//go:build verif
 // +build verif
 
 package app
